@@ -12,8 +12,8 @@ Definition readme_agrees_at (ty : N) : bool :=
   Bool.eqb (mem ty readme_errq) (match dispatch_class ty with KErrQ => true | _ => false end) &&
   (* README "only in case of an error" <-> conditional error queue *)
   Bool.eqb (mem ty readme_errq_cond) (match dispatch_class ty with KCondErrQ => true | _ => false end) &&
-  (* README "Message queue" -> message queue (MSG_VENDOR excepted, see the refuted lemma) *)
-  (if mem ty readme_msgq && negb (ty =? MSG_VENDOR) then match dispatch_class ty with KMsgQ => true | _ => false end else true) &&
+  (* README "Message queue" -> message queue *)
+  (if mem ty readme_msgq then match dispatch_class ty with KMsgQ => true | _ => false end else true) &&
   (* the five startup types and only they go to the internal queue *)
   Bool.eqb (mem ty [MSG_SYS_MAGIC; MSG_NODETAB_COUNT; MSG_NODETAB; MSG_FEATURE_COUNT; MSG_FEATURE])
            (match dispatch_class ty with KInternQ => true | _ => false end) &&
@@ -26,7 +26,8 @@ Proof. vm_compute. reflexivity. Qed.
 Lemma readme_agrees ty : ty < 256 -> readme_agrees_at ty = true.
 Proof. intros H. pose proof readme_agrees_b as Hb. rewrite forallb_forall in Hb. apply Hb. apply bytes256_complete. exact H. Qed.
 
-Lemma vendor_refuted : mem MSG_VENDOR readme_msgq = true /\ dispatch_class MSG_VENDOR = KConsumed.
+(* MSG_VENDOR is consumed by state tracking (reverser states) and, since /repo cbb7961, no longer listed by the README *)
+Lemma vendor_consumed : mem MSG_VENDOR readme_msgq = false /\ dispatch_class MSG_VENDOR = KConsumed.
 Proof. vm_compute. split; reflexivity. Qed.
 
 Lemma readme_lists_disjoint :
